@@ -445,6 +445,13 @@ pub fn generate(rng: &mut Rng, thorough: bool) -> Vec<Case> {
     pre.extend(raw_frame(0, &{ let mut c = enc_varint(0x1234); c.extend(enc_varint(2)); c.extend([9, 9]); c }));
     pre.extend(raw_frame(0, &close_capsule(77, b"after-noise")));
     cs.push(Case::new(601, vec![vec![3, 0, 7], b2a(&pre), vec![]], "skippable-then-capsule"));
+    // an unknown capsule whose declared length runs past its DATA frame and whose value looks like a close
+    // capsule (C13): skipped whole; the real close capsule behind it decides
+    for decl in [0x20u8, 0x07, 0x08] {
+        let mut b = raw_frame(0, &[0x17, decl, 0x68, 0x43, 0x04, 0x00, 0x00, 0x00, 0x2a]);
+        b.extend(raw_frame(0, &close_capsule(9, b"the real one")));
+        cs.push(Case::new(601, vec![vec![3, 0, 7], b2a(&b), vec![]], "unknown-capsule-holding-close-lookalike"));
+    }
     // clean FIN, reset, FIN inside a frame
     for m in &masks {
         cs.push(Case::new(601, vec![vec![0, 0, *m], vec![], vec![]], "clean-fin"));
